@@ -327,6 +327,8 @@ pub fn s_param() -> BoxedStrategy<f64> {
         1 => Just(0.5f64),
         6 => 0.0f64..1.0,
         2 => -2.0f64..3.0,
+        // far extrapolation (s * angle beyond 2 pi): the oracle's tolerance follows the conditioning
+        1 => -8.0f64..9.0,
         1 => (1i32..30).prop_map(|k| ldexp(1.0, -k)),
         1 => (1i32..24).prop_map(|k| 1.0 - ldexp(1.0, -k)),
     ]
